@@ -315,6 +315,7 @@ def _inline(h: _Helper, call: ast.Call, stmt: ast.stmt, lst: list, k: int, recv:
     for p, d in zip(kwonly, a.kw_defaults):
         if d is not None:
             defaults[p.arg] = d
+    rebound_in_body = {n.id for st_ in fn.body for n in ast.walk(st_) if isinstance(n, ast.Name) and isinstance(n.ctx, (ast.Store, ast.Del))}
     for p in params + kwonly:
         if p.arg in bound:
             v = copy.deepcopy(bound[p.arg])
@@ -322,6 +323,11 @@ def _inline(h: _Helper, call: ast.Call, stmt: ast.stmt, lst: list, k: int, recv:
             v = copy.deepcopy(defaults[p.arg])
         else:
             return False
+        if isinstance(v, ast.Name) and p.arg in bound and p.arg not in rebound_in_body:
+            # the argument is a plain variable of the caller and the helper never re-binds the parameter: the parameter *is* that variable
+            # (what the caller knows about it - guards, types - stays attached to the one name)
+            rename[p.arg] = v.id
+            continue
         tgt = ast.Name(id=rename[p.arg], ctx=ast.Store())
         asg = ast.Assign(targets=[tgt], value=v)
         if p.annotation is not None:
@@ -364,7 +370,7 @@ def _inline(h: _Helper, call: ast.Call, stmt: ast.stmt, lst: list, k: int, recv:
     if tail_only:
         if returns:
             body[-1] = ret_assign(returns[0])
-        else:
+        elif not (isinstance(stmt, ast.Expr) and stmt.value is call):
             body.append(ast.Assign(targets=[ast.Name(id=res, ctx=ast.Store())], value=ast.Constant(value=None)))
         new = pre + body
     else:
@@ -846,8 +852,8 @@ def inline_single_use_temps(tree: ast.Module) -> int:
                         t = st.targets[0].id
                         if stores.get(t) != 1 or len(loads.get(t, [])) != 1:
                             continue
-                        if hasattr(st, "_ann"):
-                            continue  # a declared type would be lost: the annotated name stays
+                        if hasattr(st, "_ann") and t.startswith(RES):
+                            continue  # the declared return type of an absorbed helper would be lost: its result variable stays
                         if any(isinstance(x, (ast.NamedExpr, ast.Yield, ast.YieldFrom, ast.Await)) for x in ast.walk(st.value)):
                             continue
                         use = loads[t][0]
@@ -916,3 +922,169 @@ def _hoistable_expr(node: ast.AST, parents: dict[int, ast.AST]) -> Optional[ast.
                 return None
             return par
         cur = par
+
+
+# --------------------------------------------------------------------------------------------------------------------------
+# N6 statement pushed out of the branches
+# --------------------------------------------------------------------------------------------------------------------------
+
+
+def _leaf_assigns(node: ast.If, name: Optional[str] = None) -> Optional[tuple[str, list[ast.Assign]]]:
+    """if/elif/.../else where every branch is exactly `t = V_i` for one name t -> (t, the assignments)."""
+    out: list[ast.Assign] = []
+
+    def leaf(body: list[ast.stmt]) -> bool:
+        nonlocal name
+        if len(body) == 1 and isinstance(body[0], ast.If):
+            return chain(body[0])
+        if len(body) == 1 and isinstance(body[0], ast.Assign) and len(body[0].targets) == 1 and isinstance(body[0].targets[0], ast.Name):
+            if name is None:
+                name = body[0].targets[0].id
+            if body[0].targets[0].id != name:
+                return False
+            out.append(body[0])
+            return True
+        return False
+
+    def chain(n: ast.If) -> bool:
+        if not n.orelse:
+            return False
+        if not (len(n.body) == 1 and isinstance(n.body[0], ast.Assign) and leaf(n.body)):
+            return False
+        return leaf(n.orelse)
+
+    if chain(node) and name is not None:
+        return name, out
+    return None
+
+
+def duplicate_tail_into_branches(tree: ast.Module) -> int:
+    """`if c: t = A  else: t = B` directly followed by the only statement that reads t - once, in its header - is the same as that statement
+    written in each branch with A / B in place of t ("pull the common statement out of the branches" and its reverse)."""
+    total = 0
+    for fn in [n for n in ast.walk(tree) if isinstance(n, (ast.FunctionDef, ast.AsyncFunctionDef))]:
+        for _ in range(20):
+            parents = _parents(fn)
+            loads: dict[str, list[ast.Name]] = {}
+            stores: dict[str, int] = {}
+            for n in ast.walk(fn):
+                if isinstance(n, ast.Name):
+                    if isinstance(n.ctx, ast.Load):
+                        loads.setdefault(n.id, []).append(n)
+                    else:
+                        stores[n.id] = stores.get(n.id, 0) + 1
+                elif isinstance(n, ast.arg):
+                    stores[n.arg] = stores.get(n.arg, 0) + 100
+                elif isinstance(n, (ast.Global, ast.Nonlocal)):
+                    for nm in n.names:
+                        stores[nm] = stores.get(nm, 0) + 100
+            done = False
+            for node in ast.walk(fn):
+                for lst in _stmt_lists(node):
+                    for i in range(len(lst) - 1):
+                        st = lst[i]
+                        if not isinstance(st, ast.If):
+                            continue
+                        la = _leaf_assigns(st)
+                        if la is None:
+                            continue
+                        t, assigns = la
+                        if stores.get(t) != len(assigns) or len(loads.get(t, [])) != 1:
+                            continue
+                        use = loads[t][0]
+                        nxt = lst[i + 1]
+                        if _hoistable_expr(use, parents) is not nxt or isinstance(nxt, (ast.If, ast.For, ast.AsyncFor)):
+                            continue
+                        if any(isinstance(x, (ast.NamedExpr, ast.Yield, ast.YieldFrom, ast.Await)) for a in assigns for x in ast.walk(a.value)):
+                            continue
+                        # path from nxt to the use, to redo the substitution on each copy
+                        def path_to(root: ast.AST, target: ast.AST) -> Optional[list]:
+                            for fld, val in ast.iter_fields(root):
+                                if val is target:
+                                    return [(fld, None)]
+                                if isinstance(val, ast.AST):
+                                    p = path_to(val, target)
+                                    if p is not None:
+                                        return [(fld, None)] + p
+                                elif isinstance(val, list):
+                                    for j, x in enumerate(val):
+                                        if x is target:
+                                            return [(fld, j)]
+                                        if isinstance(x, ast.AST):
+                                            p = path_to(x, target)
+                                            if p is not None:
+                                                return [(fld, j)] + p
+                            return None
+
+                        pth = path_to(nxt, use)
+                        if pth is None:
+                            continue
+                        for a in assigns:
+                            cp = copy.deepcopy(nxt)
+                            cur = cp
+                            for fld, j in pth[:-1]:
+                                cur = getattr(cur, fld) if j is None else getattr(cur, fld)[j]
+                            fld, j = pth[-1]
+                            if j is None:
+                                setattr(cur, fld, a.value)
+                            else:
+                                getattr(cur, fld)[j] = a.value
+                            ast.copy_location(cp, a)
+                            # replace the assignment by the specialised statement, in place
+                            holder = parents.get(id(a))
+                            for blst in _stmt_lists(holder):
+                                for k, s_ in enumerate(blst):
+                                    if s_ is a:
+                                        blst[k] = cp
+                        del lst[i + 1]
+                        total += 1
+                        done = True
+                        break
+                    if done:
+                        break
+                if done:
+                    break
+            if not done:
+                break
+    ast.fix_missing_locations(tree)
+    return total
+
+
+# --------------------------------------------------------------------------------------------------------------------------
+# N7 search loops
+# --------------------------------------------------------------------------------------------------------------------------
+
+
+def any_to_loop(tree: ast.Module) -> int:
+    """`if any(C(x) for x in L): <body ending in return / raise>` (no else) is `for x in L: if C(x): <body>`: the first hit leaves the
+    function either way.  The loop spelling is the normal form (guards on x are then ordinary branch conditions)."""
+    total = 0
+    for node in ast.walk(tree):
+        for lst in _stmt_lists(node):
+            for i, st in enumerate(lst):
+                if not (isinstance(st, ast.If) and not st.orelse and st.body and isinstance(st.body[-1], (ast.Return, ast.Raise))):
+                    continue
+                t = st.test
+                if not (isinstance(t, ast.Call) and isinstance(t.func, ast.Name) and t.func.id == "any" and len(t.args) == 1 and not t.keywords
+                        and isinstance(t.args[0], (ast.GeneratorExp, ast.ListComp)) and len(t.args[0].generators) == 1):
+                    continue
+                g = t.args[0].generators[0]
+                if g.is_async:
+                    continue
+                bound = {n.id for n in ast.walk(g.target) if isinstance(n, ast.Name)}
+                if any(isinstance(n, ast.Name) and n.id in bound for b in st.body for n in ast.walk(b)):
+                    continue  # the body would see the loop variable
+                cond: ast.expr = t.args[0].elt
+                for c in reversed(g.ifs):
+                    cond = ast.BoolOp(op=ast.And(), values=[c, cond])
+                inner = ast.If(test=cond, body=st.body, orelse=[])
+                loop = ast.For(target=g.target, iter=g.iter, body=[inner], orelse=[], type_comment=None)
+                for x in ast.walk(g.target):
+                    if hasattr(x, "ctx"):
+                        x.ctx = ast.Store()
+                ast.copy_location(inner, st)
+                ast.copy_location(loop, st)
+                lst[i] = loop
+                total += 1
+    ast.fix_missing_locations(tree)
+    return total
